@@ -6,6 +6,7 @@ import r_ioerr
 import r_loop
 import r_guard
 import r_lock
+import r_forms
 import witness
 
 
@@ -66,6 +67,10 @@ def c06(facts, tier):
     rep.floor("R-GUARD(valid)", "(entry, operand) pairs", n_pairs, 100)
     rep.floor("R-GUARD(valid)", "(entry, operand) pairs with a guarded first use", n_eff, 100)
     rep.extra["guard_engine"] = eng.stats
+    nf, nm = r_forms.run(facts, rep)
+    rep.floor("R-FORMS(cert)", "API families with >= 2 forms", nf, 25)
+    rep.floor("R-FORMS(cert)", "family members", nm, 75)
+    witness.run(rep, facts.repo, doc_tests=(tier == "thorough"))
     return rep
 
 
